@@ -1,5 +1,6 @@
 import Cpl.Spec.Ring
 import Cpl.Lemmas.Evolve1D
+import Cpl.Lemmas.Equivariance
 
 /-!
 # C01 — 1D evolution is the synchronous update of a ring
@@ -103,5 +104,61 @@ example : (indexStrides 2 3).length = 0 := by decide
 example : indexStrides 3 3 = [[0, 1, 2, 0, 1, 2, 0], [1, 2, 0, 1, 2, 0, 1], [2, 0, 1, 2, 0, 1, 2]] := by decide
 example : window [10, 20, 30] 3 1 = [20, 30, 10, 20, 30, 10, 20] := by decide
 example : window [1, 2, 3, 4, 5] 2 0 = [4, 5, 1, 2, 3] := by decide
+
+end Cpl.C01
+
+/-! ## Translation equivariance (periodic boundary)
+
+Because positions are taken modulo `N`, rotating the ring commutes with the synchronous update, for
+every pure rule `f`, every radius `r ≤ N` and every rotation amount `k` (also `k ≥ N`: `rotateLeft`
+reduces `k` modulo `N`). The rotation is core `List.rotateLeft` (left rotation: position `c` of
+`cells.rotateLeft k` holds `cells[(c + k) % N]`). The `evolve`-level corollary is `C03.evolve_rotate`
+(it needs the mode-independence theorem of C03, which imports this file). -/
+
+namespace Cpl.C01
+open Cpl Cpl.Spec
+
+variable {α : Type}
+
+/-- Left rotation by positions: position `c` receives the content of position `(c + k) mod N`. -/
+theorem rotateLeft_getElem? (cells : List α) (k c : Nat) (hc : c < cells.length) :
+    (cells.rotateLeft k)[c]? = cells[(c + k) % cells.length]? := by
+  exact Equivariance.getElem?_rotateLeft cells k c hc
+
+theorem rotateLeft_length (cells : List α) (k : Nat) : (cells.rotateLeft k).length = cells.length := by
+  exact Equivariance.length_rotateLeft cells k
+
+/-- **The window of a rotated ring** is the window of the original ring at the rotated position
+    (for every `c`, also on the empty ring; `r ≤ N` makes the wrap subtraction exact). -/
+theorem window_rotate [Inhabited α] (cells : List α) (r k c : Nat) (hr : r ≤ cells.length) :
+    window (cells.rotateLeft k) r c = window cells r ((c + k) % cells.length) := by
+  exact Equivariance.window_rotate cells r k c hr
+
+/-- **One synchronous step commutes with rotation**, for every pure rule. -/
+theorem pureStep_rotate [Inhabited α] (f : List α → α) (cells : List α) (r k : Nat)
+    (hr : r ≤ cells.length) :
+    pureStep f r (cells.rotateLeft k) = (pureStep f r cells).rotateLeft k := by
+  exact Equivariance.pureStep_rotate f cells r k hr
+
+/-- **The whole run commutes with rotation**: every row of the run from the rotated ring is the
+    rotated row of the run from the original ring. -/
+theorem pureRun_rotate [Inhabited α] (f : List α → α) (r k n : Nat) (cells : List α)
+    (hr : r ≤ cells.length) :
+    pureRun f r n (cells.rotateLeft k) = (pureRun f r n cells).map (·.rotateLeft k) := by
+  exact Equivariance.pureRun_rotate f r k n cells hr
+
+/-! ### Non-vacuity (an asymmetric rule: left neighbour + 2 · own state, on a ring of 5) -/
+example : [1, 2, 3, 4, 5].rotateLeft 2 = [3, 4, 5, 1, 2] ∧ [1, 2, 3, 4, 5].rotateLeft 7 = [3, 4, 5, 1, 2] := by
+  decide
+example : pureStep (fun n : List Nat => n[0]! + 2 * n[1]!) 1 [1, 0, 0, 1, 0] = [2, 1, 0, 2, 1] ∧
+    pureStep (fun n : List Nat => n[0]! + 2 * n[1]!) 1 ([1, 0, 0, 1, 0].rotateLeft 2) = [0, 2, 1, 2, 1] ∧
+    [2, 1, 0, 2, 1].rotateLeft 2 = [0, 2, 1, 2, 1] := by decide
+example : pureRun (fun n : List Nat => (n[0]! + 2 * n[1]!) % 3) 1 3 ([1, 0, 0, 1, 0].rotateLeft 7)
+    = (pureRun (fun n : List Nat => (n[0]! + 2 * n[1]!) % 3) 1 3 [1, 0, 0, 1, 0]).map (·.rotateLeft 7) := by
+  decide
+/-- window wrapping more than once (`r = N = 3`), rotated -/
+example : window ([10, 20, 30].rotateLeft 1) 3 0 = window [10, 20, 30] 3 1 := by decide
+/-- `r ≤ N` is needed: for `r > N` the truncated subtraction breaks the symmetry. -/
+example : window ([10, 20].rotateLeft 1) 5 0 ≠ window [10, 20] 5 1 := by decide
 
 end Cpl.C01
